@@ -27,7 +27,7 @@ for d in sorted(glob.glob(f"{V}/seeded/*/meta.json")):
         caught = "**not caught**: " + "; ".join(m.get("checks_run_against_it", []))
     summ = (m.get("summary", "") or "").replace("|", "\\|").replace("\n", " ")
     needs = (m.get("needs", "") or "").replace("|", "\\|").replace("\n", " ")
-    note = (m.get("history") or "") + (" " + m["adapted"] if m.get("adapted") else "")
+    note = (m.get("history") or "") + (" " + m["adapted"] if m.get("adapted") else "") + (" OBSOLETE: " + m["obsolete"] if m.get("obsolete") else "")
     rows.append(f"| `{name}` | {summ[:260]} — needs: {needs[:200]} | {caught[:260].replace('|', chr(92)+'|')} | {note.replace('|', chr(92)+'|')} |")
 s = put(s, "SEEDED-TABLE", "\n".join(rows) + "\n")
 open(f"{V}/DESIGN.md", "w").write(s)
